@@ -68,7 +68,7 @@ RULE = ("cases = (function, population, partitioning, parameters) rebuilt from a
         "random_sample with prob in {0,1,random}, int or random.Random state, on sync/threads(/processes), recomputed and rebuilt; "
         "non-trivial = non-empty population; distinct = distinct (function, population, layout, parameters)")
 ASSUMPTIONS = ["CPython's random module and collections.Counter", "dask.delayed builds the partitions the harness wrote"]
-BUDGET = {"quick": 30, "thorough": 480}
+BUDGET = {"quick": 40, "thorough": 480}
 # floors: ~45 % of the counts measured on the unchanged tree for the full quick stream (107 exhaustive + 4000 random cases);
 # thorough = 100000 random cases of the same mixture (x25), floored at x22 of the quick floors
 _QUICK_COUNTERS = {
